@@ -384,7 +384,11 @@ theorem C18_size_kept (r : RState) (o : ROp) (hs : ∀ w h, o ≠ .size w h) :
   | size w h => exact absurd rfl (hs w h)
   | flush => exact ⟨(flush_size r).1, (flush_size r).2.1⟩
   | stop => exact ⟨(flush_size r).1, (flush_size r).2.1⟩
-  | enterAlt => simp only [Render.step, enterAlt]; split <;> exact ⟨rfl, rfl⟩
+  | enterAlt =>
+    show (enterAlt r).1.width = r.width ∧ (enterAlt r).1.height = r.height
+    cases ha : r.altActive with
+    | true => rw [enterAlt_active r ha]; exact ⟨rfl, rfl⟩
+    | false => exact (enterAlt_fields r ha).2.2.2.2.2.2.2.2.2.2
   | exitAlt => simp only [Render.step, exitAlt]; split <;> exact ⟨rfl, rfl⟩
   | printLine b => simp only [Render.step]; split <;> exact ⟨rfl, rfl⟩
   | _ => exact ⟨rfl, rfl⟩
